@@ -155,6 +155,16 @@ def run(ctx, deep=False):
     if ctx.driver_ok():
         ctx.correspond("corr/c38:plain-dict-model-vs-CPython", pcases, pimpl, ctx.driver(preqs))
         ctx.correspond("corr/c38:KeyFuncDict-vs-Model.PySetDict", cases, impl_out, ctx.driver(reqs))
+    # ------------------------------------------------------------ whole-collection assignment (bulk_replace)
+    for kind in ("list", "set", "dict"):
+        for _ in range(600 if thorough else 150):
+            old = ctx.rng.sample(range(P.NITEMS), ctx.rng.randint(0, 5))
+            new = ctx.rng.sample(range(P.NITEMS), ctx.rng.randint(0, 5))
+            ctx.case(("assign", kind, old, new), nontrivial=True)
+            ctx.count("assign." + kind)
+            r = P.run_bulk_replace(kind, old, new)
+            if r:
+                ctx.violation(r[0], {"kind": "assign", "coll": kind, "old": old, "new": new}, r[1])
     ctx.exhaustive = thorough
 
 
@@ -175,6 +185,10 @@ def replay(ctx, obj):
         trace, req, fails = P.run_set_sequence(c["init"], c["ops"])
     elif kind == "dict":
         trace, req, fails = P.run_dict_sequence([tuple(p) for p in c["init"]], c["ops"])
+    elif kind == "assign":
+        r = P.run_bulk_replace(c["coll"], c["old"], c["new"])
+        print("replay C38 assign %s old=%s new=%s -> %s" % (c["coll"], c["old"], c["new"], r))
+        return r is not None
     else:
         raise ValueError(kind)
     want = obj.get("key")
